@@ -34,8 +34,30 @@ def main() -> int:
     from simlib import runner
     argv = sys.argv[1:]
     if not argv:
-        print("usage: check <ID> quick|thorough | replay <file>")
+        print("usage: check <ID> quick|thorough | all [tier] | replay <file> | "
+              "selftest-determinism [N ids...] | selftest-sensitivity [ids]")
         return 2
+    if argv[0] == "selftest-determinism":
+        import subprocess
+        return subprocess.call([os.path.join(VERIF, "tools",
+                                             "selftest_determinism.sh")] +
+                               argv[1:])
+    if argv[0] == "selftest-sensitivity":
+        import subprocess
+        return subprocess.call([os.path.join(VERIF, "tools", "mutants.sh")] +
+                               argv[1:])
+    if argv[0] == "all":
+        import json
+        import subprocess
+        tier = argv[1] if len(argv) > 1 else "quick"
+        with open(os.path.join(VERIF, "MANIFEST.json"), encoding="utf-8") as f:
+            ids = [c["property_id"] for c in json.load(f)["checks"]]
+        worst = 0
+        for i in ids:
+            rc = subprocess.call([sys.executable, os.path.abspath(__file__),
+                                  i, tier])
+            worst = max(worst, rc)
+        return worst
     if argv[0] == "replay":
         return runner.cmd_replay(argv[1])
     if argv[0] == "runcase":
